@@ -75,7 +75,8 @@ def case_pattern(rng: Any, ctx: Ctx, index: int) -> None:
     gen.begin_case(rng)
     names = sorted(patterns.PATTERNS)
     # round-robin slots: the four block-operator pairs first, then every other pattern family
-    rr = [('blocks', f) for f in range(4)] + [(n, None) for n in names if n != 'blocks']
+    rr = ([('blocks', f) for f in range(4)] + [('nearmiss', f) for f in range(patterns.N_NEARMISS)]
+          + [(n, None) for n in names if n not in ('blocks', 'nearmiss')])
     k = 1 + int(rng.integers(3) == 0) + int(rng.integers(6) == 0)
     maxctx = 14 if ctx.thorough else 6
 
@@ -87,6 +88,8 @@ def case_pattern(rng: Any, ctx: Ctx, index: int) -> None:
             name, form = rr[slot] if j == 0 else (names[int(rng.integers(len(names)))], None)
             if name == 'blocks' and form is not None:
                 tag, seg = patterns.p_blocks(rng, form)
+            elif name == 'nearmiss' and form is not None:
+                tag, seg = patterns.p_nearmiss(rng, form)
             else:
                 tag, seg = patterns.PATTERNS[name](rng)
             segs.append(seg)
